@@ -1,6 +1,7 @@
 package main
 
 import (
+	"context"
 	"errors"
 	"fmt"
 	"os"
@@ -23,6 +24,16 @@ type ChildOut struct {
 	ParkMissed bool         `json:"park_missed,omitempty"` // the barrier of a concurrent scenario was not reached / released by its watchdog
 	HookDelays int64        `json:"hook_delays"`
 	Problem    string       `json:"problem,omitempty"` // harness-side trouble (never a verdict)
+}
+
+// typedErr is an error type whose nil pointer is still a non-nil error value.
+type typedErr struct{ msg string }
+
+func (e *typedErr) Error() string {
+	if e == nil {
+		return "typed nil error"
+	}
+	return e.msg
 }
 
 func errStr(err error) any {
@@ -151,9 +162,27 @@ func childMain(dir string) {
 			if sc.Wide != nil && phase == "start" && k == 1 {
 				close(wideEnded[name])
 			}
+			what := fmt.Sprintf("injected %s failure of %s (#%d)", phase, name, k)
 			switch res {
 			case "err":
-				return fmt.Errorf("injected %s failure of %s (#%d)", phase, name, k)
+				return errors.New(what)
+			case "err-wrapped":
+				return fmt.Errorf("%s: %w", what, errors.New("cause"))
+			case "err-canceled":
+				return context.Canceled
+			case "err-wrapped-canceled":
+				return fmt.Errorf("%s: %w", what, context.Canceled)
+			case "err-deadline":
+				return fmt.Errorf("%s: %w", what, context.DeadlineExceeded)
+			case "err-cleanexit":
+				// the one sentinel Start treats specially (prep: returned unwrapped, not
+				// reported); still an error: the module is not prepared / started
+				return modules.ErrCleanExit
+			case "err-restart":
+				return fmt.Errorf("%s: %w", what, modules.ErrRestartNow)
+			case "err-typed-nil":
+				var e *typedErr
+				return e // non-nil error interface holding a nil pointer
 			case "panic":
 				panic(fmt.Sprintf("injected %s panic of %s (#%d)", phase, name, k))
 			case "panic-err":
@@ -226,6 +255,10 @@ func childMain(dir string) {
 				lg.Rec("call", who, "disable", map[string]any{"m": s.Mod})
 				ch := mods[s.Mod].Disable()
 				lg.Rec("ret", who, "disable", map[string]any{"m": s.Mod, "changed": ch})
+			case "set-on", "set-off":
+				lg.Rec("call", who, s.Op, map[string]any{"m": s.Mod})
+				ch := mods[s.Mod].SetEnabled(s.Op == "set-on")
+				lg.Rec("ret", who, s.Op, map[string]any{"m": s.Mod, "changed": ch})
 			case "manage":
 				lg.Rec("call", who, "ManageModules", nil)
 				if issuing != nil {
